@@ -301,22 +301,24 @@ Qed.
 
 Lemma step_safe c st g now ev :
   inv g st ->
+  match ev with ENotify _ ids _ interested _ _ => forall id, In id interested -> In id ids | _ => True end ->
   let g' := ghost_step st g ev in
   inv g' (fst (step true c st now ev)) /\
   (forall p ids id, In (p, ids) (snd (step true c st now ev)) -> In id ids -> In (p, id) g').
 Proof.
-  intros Hinv. destruct ev as [peer ids atime interested susp scan | ids | | interested ch scan]; cbn [ghost_step step].
+  intros Hinv Hsub. destruct ev as [peer ids atime interested susp scan | ids | | interested ch scan]; cbn [ghost_step step].
   - (* notification *)
     unfold process_notification.
     destruct interested as [|i0 rest].
     { cbn. split; [exact Hinv | intros ? ? ? []]. }
     cbv iota. remember (i0 :: rest) as interested eqn:EI. clear EI i0 rest.
-    set (g' := map (fun id => (peer, id)) interested ++ g).
+    set (g' := map (fun id => (peer, id)) (filter (fun id => memN id ids) interested) ++ g).
     assert (Hi' : inv g' st).
     { destruct Hinv as [H1 H2]. split; [assumption|]. eapply covered_mono; [|exact H2]. intros x Hx. apply in_app_iff; auto. }
     pose proof (notify_fold_inv c now (mkA atime peer) susp g' interested st [] Hi') as H.
     assert (Hg : forall id, In id interested -> In (a_peer (mkA atime peer), id) g').
-    { intros id Hid. cbn. apply in_app_iff. left. apply in_map_iff. eauto. }
+    { intros id Hid. cbn. apply in_app_iff. left. apply in_map_iff. exists id. split; [reflexivity|].
+      apply filter_In. split; [assumption | apply memN_in, Hsub, Hid]. }
     specialize (H Hg).
     destruct (fold_left (notify_one c now (mkA atime peer) susp) interested (st, [])) as [st1 tf].
     destruct H as (Hi1 & _ & Htf). cbn [fst snd]. split.
@@ -365,17 +367,33 @@ Proof.
       apply filter_In. split; [assumption | now apply memN_in].
 Qed.
 
+Definition cfg_ex0 : cfg := mkCfg 320%Z 40%Z 60%Z 1620%Z 256%N 8%nat.
+
 Lemma inv_init t0 : inv [] (init t0).
 Proof. split; [constructor | intros e a []]. Qed.
 
-Lemma safe_run_all c tr : forall st g, inv g st -> safe_run c st g tr.
+Lemma safe_run_all c tr : forall st g, answers_sublist tr -> inv g st -> safe_run c st g tr.
 Proof.
-  induction tr as [|[now ev] tr IH]; intros st g Hinv; cbn [safe_run]; [exact I|].
-  destruct (step_safe c st g now ev Hinv) as [H1 H2]. split; [exact H2 | apply IH, H1].
+  induction tr as [|[now ev] tr IH]; intros st g Hs Hinv; cbn [safe_run]; [exact I|].
+  assert (Hev : match ev with ENotify _ ids _ interested _ _ => forall id, In id interested -> In id ids | _ => True end).
+  { destruct ev; try exact I. intros id Hid. eapply Hs; [left; reflexivity | exact Hid]. }
+  destruct (step_safe c st g now ev Hinv Hev) as [H1 H2]. split; [exact H2|].
+  apply IH; [|exact H1]. intros n p i a int su sc Hin. eapply Hs. right. exact Hin.
 Qed.
 
-Lemma fetcher_safety c t0 tr : safe_run c (init t0) [] tr.
-Proof. apply safe_run_all, inv_init. Qed.
+Lemma fetcher_safety c t0 tr : answers_sublist tr -> safe_run c (init t0) [] tr.
+Proof. intros H. apply safe_run_all; [exact H | apply inv_init]. Qed.
+
+(* without that hypothesis the statement is false, and so is the implementation-level claim: the
+   fetcher requests from the announcing peer whatever OnlyInterested returned *)
+Example fetcher_safety_needs_sublist :
+  ~ safe_run cfg_ex0 (init 0%Z) [] [(10%Z, ENotify 1%N [1%N] 10%Z [2%N] false [])].
+Proof.
+  cbn [safe_run]. intros [H _].
+  assert (H1 : In (1%N, [2%N]) (snd (step true cfg_ex0 (init 0%Z) 10%Z (ENotify 1%N [1%N] 10%Z [2%N] false []))))
+    by (vm_compute; auto).
+  specialize (H 1%N [2%N] 2%N H1 (or_introl eq_refl)). vm_compute in H. exact H.
+Qed.
 
 (* ====================== liveness: a pass is always pending ====================== *)
 
